@@ -579,7 +579,10 @@ func EqualNorm(t *gen.T, w, g reflect.Value, omit bool, path string) string {
 			}
 		}
 	default:
-		return fmt.Sprintf("%s: kind %v not in the comparator", path, t.K)
+		if w.IsZero() && g.IsZero() {
+			return ""
+		}
+		return fmt.Sprintf("%s: kind %v not in the comparator and not zero on both sides", path, t.K)
 	}
 	return ""
 }
